@@ -13,7 +13,9 @@ def clear_type_caches():
     from pynguin.analyses.typesystem import TypeSystem
 
     for name in CACHED_TS_METHODS:
-        getattr(TypeSystem, name).cache_clear()
+        clear = getattr(getattr(TypeSystem, name, None), "cache_clear", None)
+        if clear is not None:  # a method that is not lru-cached (any more) has nothing to clear
+            clear()
 
 
 def build_cluster(manifest, selection="RANK_SELECTION"):
